@@ -78,6 +78,7 @@ where
             "tmo.set",
             crate::verif::json!({
                 "dir": "inbound",
+                "route": req.route(),
                 "default_ns": self.default_timeout.map(|d| d.as_nanos() as u64),
                 "header": req.headers().get(crate::types::header::TIMEOUT),
                 "chosen_ns": timeout_duration.map(|d| d.as_nanos() as u64),
